@@ -263,6 +263,46 @@ def run (cfg : Cfg) : PS → List Req → PS × List Out
     let (ps2, os) := run cfg ps1 rs
     (ps2, o :: os)
 
+/-! ### what else happens on the accessory while a pair-setup is in flight
+
+  The SRP session lives on the driver, not on a connection, so other connections matter.  A bystander's
+  own `POST /pair-setup` is an ordinary `Req` (it may replace the session: DESIGN §9).  Everything else a
+  bystander can do before the accessory is paired leaves the pair-setup state alone:
+  `AccessoryDriver.connection_lost` touches only `topics` and `prepared_writes`, a new connection only
+  creates per-connection objects, and any other request on an unverified connection is refused. -/
+
+inductive Ev
+  /-- `POST /pair-setup` on any connection -/
+  | req (r : Req)
+  /-- a connection is made and/or lost (`HAPServerProtocol.connection_made` / `connection_lost` →
+      `AccessoryDriver.connection_lost`) -/
+  | connLost
+  /-- any other request on an unverified connection (answered 401 / 4xx, no effect here) -/
+  | other
+
+def Ev.isBystander : Ev → Bool
+  | .req _ => false
+  | _ => true
+
+def stepEv (cfg : Cfg) (ps : PS) : Ev → PS × Option Out
+  | .req r => ((step cfg ps r).1, some (step cfg ps r).2.1)
+  | .connLost => (ps, none)
+  | .other => (ps, none)
+
+/-- run a history of events; the answers to the pair-setup requests are collected -/
+def runEv (cfg : Cfg) : PS → List Ev → PS × List Out
+  | ps, [] => (ps, [])
+  | ps, e :: es =>
+    let (ps1, o) := stepEv cfg ps e
+    let (ps2, os) := runEv cfg ps1 es
+    (ps2, match o with | some x => x :: os | none => os)
+
+/-- the pair-setup requests of a history -/
+def reqsOf : List Ev → List Req
+  | [] => []
+  | .req r :: es => r :: reqsOf es
+  | _ :: es => reqsOf es
+
 /-! ### the shipped code (before the repairs), for the counterexample theorems only -/
 
 def pairingTwoLegacy (cfg : Cfg) (ps : PS) (t : Items) : Res :=
